@@ -33,7 +33,7 @@ func (c15) Assumptions() []string {
 	return []string{"self-differential: a fresh ValueReader running the same code is the reference", "documents and pool schedules are sampled"}
 }
 func (c15) Required(tier string) []string {
-	return []string{"P-miss", "P-pick", "P-evict", "X-mutate-result", "A-abort", "pool-hit-with-stale-size-hint", "pool-hit-with-used-scratch", "pool-hit-with-retained-slice", "read-after-failed-read", "read-after-depth-limit-exit", "read-after-10x-larger-document", "snapshots-rechecked"}
+	return []string{"P-miss", "P-pick", "P-evict", "X-mutate-result", "A-abort", "pool-hit-with-stale-size-hint", "pool-hit-with-used-scratch", "pool-hit-with-retained-slice", "read-after-failed-read", "read-after-depth-limit-exit", "read-after-10x-larger-document", "snapshots-rechecked", "input-in-reused-arena", "top-level-string"}
 }
 
 var vrOps = []string{"VR.ReadValue", "VR.ReadObject", "VR.ReadArray"}
@@ -59,7 +59,17 @@ func genPoolTape(r *Rand, n int) []int {
 // genVRDoc draws a document for a generic read.
 func genVRDoc(r *Rand, entry string) Doc {
 	obj := entry == "VR.ReadObject" || (entry == "VR.ReadValue" && r.Chance(1, 2))
-	switch r.Pick(8, 3, 2, 2, 1, 1, 2, 1) {
+	switch r.Pick(8, 3, 2, 2, 1, 1, 2, 1, 2) {
+	case 8: // a bare top-level string, long enough to outgrow any small-string special case
+		if entry == "VR.ReadValue" {
+			cfg := &genCfg{esc: r.Pick(2, 1, 1), rawBad: r.Chance(1, 5)}
+			var b bytes.Buffer
+			b.WriteByte('"')
+			genStringContent(r, &b, cfg, []int{3, 60, 130, 300, 2000}[r.Intn(5)])
+			b.WriteByte('"')
+			return docOf(withTrailer(r, b.Bytes()), "top-level-string")
+		}
+		return docOf(genContainerDoc(r, obj, 2, 3000), "container")
 	case 0:
 		n := memberCount(r)
 		return docOf(withTrailer(r, genContainerDoc(r, obj, n, []int{100, 1000, 8000}[r.Intn(3)])), "container")
@@ -131,7 +141,7 @@ func genVRHistory(r *Rand, sc *Scenario, withMutations bool) {
 		}
 		entry := vrOps[r.Pick(4, 3, 3)]
 		sc.Docs = append(sc.Docs, genVRDoc(r, entry))
-		op := Op{Kind: entry, Doc: len(sc.Docs) - 1}
+		op := Op{Kind: entry, Doc: len(sc.Docs) - 1, B: 2 * r.Intn(2)}
 		if !faultFree {
 			op.Tape = genPoolTape(r, r.Range(0, 60))
 		}
@@ -229,6 +239,13 @@ func (c15) Exec(sc *Scenario, st *Stats) *Violation {
 	var results []*vrResult
 	lastFailed, lastDepth, reads := false, false, 0
 	lastLen := 0
+	maxLen := 0
+	for _, d := range sc.Docs {
+		if d.Len() > maxLen {
+			maxLen = d.Len()
+		}
+	}
+	arena := make([]byte, maxLen) // a read buffer the caller reuses: same address for every call that asks for it
 	for oi, op := range sc.Tasks[0] {
 		viol := func(class, detail string) *Violation {
 			return &Violation{Class: class, Task: 0, Op: oi, Sig: "C15/" + class + "/" + op.Kind, Detail: detail}
@@ -250,6 +267,13 @@ func (c15) Exec(sc *Scenario, st *Stats) *Violation {
 		default:
 			d := sc.Docs[op.Doc]
 			dataA, dataB := d.Bytes(), d.Bytes()
+			if op.B&2 != 0 {
+				dataA = arena[:copy(arena, dataA)]
+				st.probe("input-in-reused-arena")
+			}
+			if d.Class == "top-level-string" {
+				st.probe("top-level-string")
+			}
 			if lastFailed {
 				st.probe("read-after-failed-read")
 			}
